@@ -238,7 +238,7 @@ static sigjmp_buf crashjmp;
 static void oncrash(int s) { (void)s; siglongjmp(crashjmp, 1); }
 
 /* one run following `pre`, then the first enabled thread each time; returns 1 if it ran to the end */
-static long nruns, nevents, npruned, nhangs;
+static long nruns, nevents, npruned, nhangs, maxevents = 6000000;   /* a changed library may have far more schedules: bound the trace */
 static int random_mode; static unsigned long rs = 88172645463325252UL;
 static unsigned long rnd(void) { rs ^= rs << 13; rs ^= rs >> 7; rs ^= rs << 17; return rs; }
 static void run(const sched_t *pre, const char *scen)
@@ -296,6 +296,7 @@ int main(int argc, char **argv)
     out = fopen(argv[1], "w"); if (!out) return 73;
     { static char obuf[1 << 20]; setvbuf(out, obuf, _IOFBF, sizeof obuf); }
     HASCLR = atoi(argv[2]); maxruns = atol(argv[3]); random_mode = maxruns < 0;
+    if (getenv("VERIF_MAX_EVENTS")) maxevents = atol(getenv("VERIF_MAX_EVENTS"));
     if (getenv("VERIF_SEED")) rs ^= strtoul(getenv("VERIF_SEED"), NULL, 10) * 0x9E3779B97F4A7C15UL;
     visited = __real_malloc(sizeof(unsigned long) * VSZ);
     for (t = 0; t < MAXT; t++) stk[t] = __real_malloc(STK);
@@ -315,7 +316,7 @@ int main(int argc, char **argv)
         }
         memset(visited, 0, sizeof(unsigned long) * VSZ); nvisited = 0; nstack = 0;
         { sched_t empty; empty.len = 0; push(&empty); }
-        while ((random_mode || nstack > 0) && nruns - runs0 < (maxruns < 0 ? -maxruns : maxruns)) {
+        while ((random_mode || nstack > 0) && nruns - runs0 < (maxruns < 0 ? -maxruns : maxruns) && nevents < maxevents) {
             sched_t s; if (random_mode) s.len = 0; else s = stack[--nstack];
             if (sigsetjmp(crashjmp, 1) == 0) run(&s, argv[a]);
             else { fprintf(out, "\n{\"e\":\"crash\"}\n"); in_threads = 0; cur = -1; nruns++; }
@@ -323,6 +324,6 @@ int main(int argc, char **argv)
         fflush(out);
     }
     fclose(out);
-    printf("{\"runs\":%ld,\"events\":%ld,\"pruned\":%ld,\"hangs\":%ld}\n", nruns, nevents, npruned, nhangs);
+    printf("{\"runs\":%ld,\"events\":%ld,\"pruned\":%ld,\"hangs\":%ld,\"truncated\":%s}\n", nruns, nevents, npruned, nhangs, nevents >= maxevents ? "true" : "false");
     return 0;
 }
